@@ -171,6 +171,7 @@ theorem dtype_step {s : State} (hw : WF s) {l : Nat} (hl : l < s.nLayers) (op : 
         · rfl
         · exact dtypeOf_alloc hw hl _ _ _ _ rfl rfl
   | grab hd l' => left; simp only [step]; unfold grab; split <;> rfl
+  | grabMask hd => left; simp only [step]; unfold grabMask; split <;> rfl
   | hget hd c => exact Or.inl rfl
   | hset hd c v => exact Or.inl (dtypeOf_sameShape (sameShape_hset ..) l)
   | hdump hd => exact Or.inl rfl
